@@ -9,18 +9,8 @@ ENG = "sqlgrep::execution::execution_engine::ExecutionEngine::"
 
 
 def _field_switches(f, field):
-    """switch blocks that test a value read from a place with the named field"""
-    res = []
-    for (bb, s) in PR.field_reads(f, field):
-        if isinstance(s, dict) and s.get("switch"):
-            res.append(bb)
-            continue
-        l = s["pl"]["l"]
-        for sw in sorted(f.reach):
-            t = f.blocks[sw]["term"]
-            if t["k"] == "switch" and t["discr"]["k"] in ("copy", "move") and t["discr"]["pl"]["l"] == l and not t["discr"]["pl"]["p"]:
-                res.append(sw)
-    return sorted(set(res))
+    """switch blocks that test a bool read from a place with the named field (also through copies / negation)"""
+    return sorted(set(sw for sw, tt, ft in PR.field_bool_switches(f, field)))
 
 
 def _limit_switches(f):
@@ -65,6 +55,40 @@ def _cut_length_problems(P, f, op, depth=2):
     return out
 
 
+def limit_counter(P):
+    """(name of the usize field of ExecutionEngine that is compared with a statement's LIMIT, [functions that add to it])"""
+    adt = P.adts.get("sqlgrep::execution::execution_engine::ExecutionEngine")
+    if not adt:
+        return None, []
+    cands = [fl["name"] for v in adt["variants"] for fl in v["fields"] if fl["ty"] == "usize"]
+    found = None
+    for f in P.fns.values():
+        if f.target != "lib" or not f.spath.startswith("sqlgrep::execution::execution_engine::"):
+            continue
+        for i, st in f.stmts():
+            if st["k"] != "assign" or st["rv"]["k"] != "binop" or st["rv"]["op"] not in ("Ge", "Lt", "Gt", "Le", "Eq"):
+                continue
+            sides = [st["rv"]["l"], st["rv"]["r"]]
+            names = [set(F.source_fields(f, x, depth=5)) if x["k"] in ("copy", "move") else set() for x in sides]
+            for c in cands:
+                if (c in names[0]) != (c in names[1]):
+                    other = sides[1] if c in names[0] else sides[0]
+                    if other["k"] in ("copy", "move") and any(
+                            (o.place is not None and "limit" in place_fields(o.place)) or
+                            (o.kind == "arg" and f.local_ty(o.arg) == "core::option::Option<usize>")
+                            for o in F.origins(f, other, depth=8)):
+                        found = c
+    if found is None:
+        return None, []
+    writers = []
+    for f in P.fns.values():
+        if f.target != "lib" or f.kind == "Closure":
+            continue
+        if any(st["k"] == "assign" and st["pl"]["p"] and found in place_fields(st["pl"]) and st["rv"]["k"] != "aggr" for i, st in f.stmts()):
+            writers.append(f)
+    return found, writers
+
+
 def run(R):
     P = R.prog
     R.rule("C07.exit", "from the reached_limit==true edge of every executor no input-consuming call is reachable (all input loops are left)")
@@ -74,7 +98,7 @@ def run(R):
     R.rule("C07.agg", "batch aggregates: the limit is applied to the complete result table in ExecutionEngine::execute only "
                       "(no other reader of the statement's limit in the execution engines)")
     for name in (L.FILE_EXEC, L.FOLLOW_EXEC):
-        f = R.need_fn(name)
+        f = L.exec_view(R, name)
         sn = "::".join(f.spath.split("::")[-2:])
         sws = _limit_switches(f)
         if not sws:
@@ -82,7 +106,8 @@ def run(R):
             continue
         for sw in sws:
             t = f.blocks[sw]["term"]
-            true_t = t["otherwise"]
+            pol = {sw_: tt_ for sw_, tt_, ft_ in PR.field_bool_switches(f, "reached_limit")}
+            true_t = pol.get(sw, t["otherwise"])
             after = f.reachable_from(true_t)
             cons = [c for c in L.consuming_calls(f) if c.bb in after]
             if cons:
@@ -106,60 +131,76 @@ def run(R):
                             [e.loc()])
             else:
                 R.ok("C07.exit", sn + "|tested-every-line", "reached_limit is tested on every path back to the loop header", e.loc())
-    # counter
-    ul = R.need_fn(ENG + "update_limit")
-    writes = [(i, s) for i, s in ul.stmts() if s["k"] == "assign" and "num_output_rows" in place_fields(s["pl"])]
-    names = [short(c.name) for c in ul.calls]
-    if not writes:
-        R.violation("C07.count", "update_limit|no-count", "update_limit no longer counts emitted rows", [ul.loc()])
-    elif any(re.search(r"Iterator::(filter|filter_map|take_while|skip_while|count)$|Iterator>::count$", n) for n in names):
-        R.violation("C07.count", "update_limit|filtered", "the LIMIT counter is fed from a filtered count (%s): rows that are emitted but not "
-                                                          "counted make the query overshoot the limit"
-                    % [n for n in names if "filter" in n or "count" in n][:2], [ul.loc()])
-    elif "alloc::vec::Vec::len" in names:
-        R.ok("C07.count", "update_limit", "num_output_rows += result rows' Vec::len", ul.loc())
-    else:
-        R.violation("C07.count", "update_limit|shape", "unrecognised LIMIT counter update (callees %s)" % names, [ul.loc()])
+    # counter: the usize field of the engine that is compared with the statement's LIMIT (found structurally, names are free)
+    counter, writers = limit_counter(P)
+    if counter is None:
+        R.violation("C07.count", "engine|no-counter", "no usize field of ExecutionEngine is compared with the statement's LIMIT: emitted rows "
+                                                      "are not counted against the limit", [R.need_fn(ENG + "execute").loc()])
+        writers = []
+    for ul in writers:
+        wn = ul.spath.split("::")[-1]
+        names = [short(c.name) for c in ul.calls]
+        adds = []
+        for i, st in ul.stmts():
+            if st["k"] == "assign" and st["rv"]["k"] == "binop" and st["rv"]["op"] in ("Add", "AddWithOverflow", "AddUnchecked") and \
+                    any(counter in F.source_fields(ul, side, depth=4) for side in (st["rv"]["l"], st["rv"]["r"]) if side["k"] in ("copy", "move")):
+                adds.append(st)
+        fed = []
+        for st in adds:
+            for side in (st["rv"]["l"], st["rv"]["r"]):
+                if side["k"] in ("copy", "move") and counter in F.source_fields(ul, side, depth=4):
+                    continue
+                fed += [o for o in F.origins(ul, side, depth=8)] if side["k"] in ("copy", "move") else [None]
+        if not adds:
+            R.violation("C07.count", wn + "|no-count", "%s writes the LIMIT counter but does not add to it" % ul.path, [ul.loc()])
+        elif any(re.search(r"Iterator::(filter|filter_map|take_while|skip_while|count)$|Iterator>::count$", n) for n in names):
+            R.violation("C07.count", wn + "|filtered", "the LIMIT counter is fed from a filtered count (%s): rows that are emitted but not "
+                                                       "counted make the query overshoot the limit"
+                        % [n for n in names if "filter" in n or "count" in n][:2], [ul.loc()])
+        elif fed and all(o is not None and o.kind == "call" and short(o.call.name) == "alloc::vec::Vec::len" and
+                         "sqlgrep::data_model::Row" in " ".join(o.call.func.get("res_targs") or o.call.targs) for o in fed
+                         if o is None or o.kind != "call" or not F.TRANSPARENT.search(short(o.call.name))):
+            R.ok("C07.count", wn, "counter += number of result rows (Vec<Row>::len)", ul.loc())
+        else:
+            R.violation("C07.count", wn + "|shape", "the LIMIT counter is increased by something else than the number of result rows (%s)"
+                        % [str(o) for o in fed][:3], [ul.loc()])
     # pre-test and truncation in the Select arm
     ef = R.need_fn(ENG + "execute")
     es = PR.calls_matching(ef, r"ExecutionEngine::execute_select$")
     if len(es) != 1:
         R.violation("C07.pre", "execute|shape", "ExecutionEngine::execute: expected one execute_select call", [ef.loc()])
     else:
+        # on every path to execute_select either the limit is absent or `counter < limit` holds (path facts on the body with local
+        # predicate helpers inlined)
+        keep = r"ExecutionEngine::(execute_select|execute_aggregate|execute_aggregate_update|execute_aggregate_result)$|" + \
+               "|".join(re.escape(w.spath) + "$" for w in writers) if writers else r"ExecutionEngine::(execute_select|execute_aggregate)"
+        efv = PR.view(P, ef, keep=keep)
+        fa = PR.facts(efv)
+        ev = [c for c in efv.calls if short(c.name).endswith("ExecutionEngine::execute_select")][0]
+
+        def no_budget_left_excluded(a, val):
+            if a.get("kind") == "discr" and a.get("call") is None and "limit" in place_fields(a["place"]) and val == "None":
+                return True
+            if a.get("kind") == "binop" and a.get("op") in ("Ge", "Lt", "Gt", "Le"):
+                l_is = a["l"]["k"] in ("copy", "move") and counter in F.source_fields(efv, a["l"], depth=5)
+                r_is = a["r"]["k"] in ("copy", "move") and counter in F.source_fields(efv, a["r"], depth=5)
+                if not (l_is or r_is):
+                    return False
+                op = a["op"]
+                if r_is:   # normalise to counter OP limit
+                    op = {"Ge": "Le", "Le": "Ge", "Gt": "Lt", "Lt": "Gt"}[op]
+                return (op == "Ge" and val is False) or (op == "Lt" and val is True)
+            return False
+        pre = fa.ok and fa.every_path(ev.bb, no_budget_left_excluded)
         e = es[0]
-        # every path to execute_select passes either the `None` edge of the limit or the false edge of `num_output_rows >= limit`
-        cut = set()
-        for sw in sorted(ef.reach):
-            info = F.switch_info(ef, sw)
-            if not info:
-                continue
-            if info[0] == "discr" and "limit" in place_fields(info[1]["pl"]):
-                names = {dv: n for dv, n in info[1].get("variants", [])}
-                for lab, b in info[2].items():
-                    if names.get(lab) == "None" or (lab == "otherwise" and "None" not in [names.get(l) for l in info[2] if l != "otherwise"]):
-                        cut.add((sw, b))
-            if info[0] == "bool":
-                for lab in ("0", "otherwise"):
-                    pos, os_ = F.bool_edge_polarity(ef, sw, lab)
-                    for o in os_:
-                        if o.kind == "binop" and o.extra in ("Ge", "Lt"):
-                            ops = [o.place["l"], o.place["r"]]
-                            if any(oo.place is not None and isinstance(oo.place, dict) and "p" in oo.place and
-                                   "num_output_rows" in place_fields(oo.place) for op in ops for oo in F.origins(ef, op, depth=4)):
-                                below = (o.extra == "Ge" and not pos) or (o.extra == "Lt" and pos)
-                                if below:
-                                    tgt = ef.blocks[sw]["term"]["otherwise"] if lab == "otherwise" else \
-                                        [b for v, b in ef.blocks[sw]["term"]["targets"] if v == "0"][0]
-                                    cut.add((sw, tgt))
-        pre = bool(cut) and e.bb not in ef.reachable_from(0, avoid_edges=cut)
         if pre:
-            R.ok("C07.pre", "execute|pre-test", "every path to execute_select passes `limit is None` or `num_output_rows < limit`", e.loc())
+            R.ok("C07.pre", "execute|pre-test", "every path to execute_select passes `limit is None` or `counter < limit`", e.loc())
         else:
             R.violation("C07.pre", "execute|no-pre-test",
-                        "ExecutionEngine::execute runs execute_select without first testing num_output_rows against the limit: LIMIT 0 "
+                        "ExecutionEngine::execute runs execute_select without first testing the emitted-row counter against the limit: LIMIT 0 "
                         "(or an exhausted limit) still emits the rows of one more line", [e.loc()])
         tr = [c for c in PR.calls_matching(ef, r"^alloc::vec::Vec::(truncate|drain)$") if c.bb in ef.reachable_from(e.bb)]
-        ulc = PR.calls_matching(ef, r"ExecutionEngine::update_limit$")
+        ulc = [c for c in ef.calls if any(k2 in [w.key for w in writers] for k2 in P.callee_keys(ef, c))]
         if tr and ulc and any(c.bb in ef.reachable_from(t.bb) for t in tr for c in ulc):
             R.ok("C07.pre", "execute|truncate", "rows of a line are truncated to the remaining budget before they are counted", tr[0].loc())
         else:
